@@ -205,6 +205,45 @@ def run(chk):
                         "else out_str \"throw\")" % (mlp, mpt(q)),
                         {"kind": "bezcp", "points": pts, "query": q, "aimed": "foot is the middle coordinate"})
             plan.append(("bezcp", ic, pts, q, ib, -h))
+    # aimed: arcuate and horseshoe-shaped lines - every bend turns the same way by 35-55 degrees, 5-8 coordinates, so that the line
+    # comes back towards points whose first foot (going along the line) is far away: the nearest foot is on a later section, with
+    # farther sections in between
+    for _ in range(6 if quick else 60):
+        rng.seed("%d/c19-4b/%d" % (chk.seed, _))      # every world has its own stream: families do not disturb each other
+        n = rng.choice([5, 6, 7, 8])
+        turn = rng.choice([-1.0, 1.0])
+        ang = rng.uniform(0, 2 * math.pi)
+        x, y = rng.choice([0.0, 65536.0]), rng.choice([0.0, -131072.0])
+        pts = [(x, y)]
+        for k in range(n - 1):
+            L = float(round(rng.uniform(1.0e5, 4.0e5)))
+            x, y = x + L * math.cos(ang), y + L * math.sin(ang)
+            pts.append((float(round(x)), float(round(y))))
+            ang += turn * math.radians(rng.uniform(35.0, 55.0))
+        pl = "%d %s" % (n, " ".join(fhex(p[0]) + " " + fhex(p[1]) for p in pts))
+        mlp = mlist([mpt(p) for p in pts])
+        ib = cs.raw("bez c " + pl,
+                    "let () = (let b = bezier_build n %s in out_vec (b.bz_angles @ List.concat_map (fun ((a,b),(c,d)) -> [a;b;c;d]) b.bz_ctrl))" % mlp,
+                    {"kind": "bez", "points": pts})
+        plan.append(("bez", ib, pts))
+        xs, ys = [p[0] for p in pts], [p[1] for p in pts]
+        for _k in range(30):
+            if _k % 2 == 0:
+                # next to one of the later sections, on either side
+                i = rng.randrange(max(1, n - 3), n - 1)
+                t = rng.uniform(0.1, 0.9)
+                dx, dy = pts[i + 1][0] - pts[i][0], pts[i + 1][1] - pts[i][1]
+                L = math.hypot(dx, dy)
+                off = rng.uniform(-6e4, 6e4)
+                q = (pts[i][0] + t * dx - dy / L * off, pts[i][1] + t * dy + dx / L * off)
+            else:
+                q = (rng.uniform(min(xs), max(xs)), rng.uniform(min(ys), max(ys)))
+            ic = cs.raw("bezcp c %s %s %s" % (pl, fhex(q[0]), fhex(q[1])),
+                        "let () = (let r = closest_point_cartesian n (bezier_build n %s) %s in "
+                        "if r.cl_found then out_vec [r.cl_distance; r.cl_fraction; float_of_int (int_of_nat r.cl_index); fst r.cl_point; snd r.cl_point; fst r.cl_normal; snd r.cl_normal] "
+                        "else out_str \"throw\")" % (mlp, mpt(q)),
+                        {"kind": "bezcp", "points": pts, "query": q, "aimed": "horseshoe"})
+            plan.append(("bezcp", ic, pts, q, ib, 1.0))
     # ---------------- Bezier, spherical closest point (haversine Newton with line search) -------------------
     for _ in range(30 if quick else 400):
         rng.seed("%d/c19-5/%d" % (chk.seed, _))      # every world has its own stream: families do not disturb each other
